@@ -28,7 +28,9 @@ Root   == <<>>
 Parent(p) == SubSeq(p, 1, Len(p) - 1)
 NSs == {"iso", "jol", "udf"}
 
-NoElt == [on |-> FALSE]
+\* El Torito: catino = inode of the boot catalog (content id "cat"), entries = inodes of the boot
+\* files of the initial entry and the section entries, in order
+NoElt == [on |-> FALSE, catino |-> 0, entries |-> <<>>]
 NoHyb == [on |-> FALSE]
 
 Entry(k, i, h, t) == [k |-> k, ino |-> i, h |-> h, t |-> t]
@@ -67,7 +69,8 @@ WithTree(st, ns, t) == CASE ns = "iso" -> [st EXCEPT !.iso = t]
 (***************************************************************************)
 (* Contents and link structure (derived, never stored twice)               *)
 (***************************************************************************)
-EltInos(st) == IF st.elt.on THEN {st.elt.entries[i].ino : i \in 1..Len(st.elt.entries)} ELSE {}
+EltInos(st) == IF st.elt.on THEN {st.elt.entries[i] : i \in 1..Len(st.elt.entries)} \cup {st.elt.catino} ELSE {}
+BootInos(st) == IF st.elt.on THEN {st.elt.entries[i] : i \in 1..Len(st.elt.entries)} ELSE {}
 NameRefs(st, i) == {<<ns, p>> \in NSs \X (DOMAIN st.iso \cup DOMAIN st.jol \cup DOMAIN st.udf) :
                        p \in DOMAIN Tree(st, ns) /\ Tree(st, ns)[p].ino = i}
 Live(st, i) == NameRefs(st, i) # {} \/ i \in EltInos(st)
@@ -207,9 +210,6 @@ AddHardLinkF(st, ons, old, nns, new) ==
           why == AddWhy(st, nns, new, "file")
       IN Decide(why, WithTree(st, nns, Put(Tree(st, nns), new, Entry("file", i, FALSE, ""))))
 
-\* names of the boot catalog are files whose inode is the catalog's
-IsCatName(st, ns, p) == st.elt.on /\ Tree(st, ns)[p].ino = st.elt.catino
-
 RmHardLinkF(st, ns, p) ==
     IF st.phase # "live" THEN Refuse("bad_state")
     ELSE IF ~HasNs(st, ns) THEN Refuse(ns \o "_no_such_namespace")
@@ -223,7 +223,7 @@ RmFileF(st, ns, p) ==
     ELSE IF p = Root \/ p \notin DOMAIN Tree(st, ns) THEN Refuse(ns \o "_missing")
     ELSE IF Tree(st, ns)[p].k = "dir" THEN Refuse(ns \o "_wrong_kind")
     ELSE LET i == Tree(st, ns)[p].ino IN
-      IF i # 0 /\ (i \in EltInos(st) \/ IsCatName(st, ns, p)) THEN Refuse("referenced_by_eltorito")
+      IF i # 0 /\ i \in EltInos(st) THEN Refuse("referenced_by_eltorito")
       ELSE IF i = 0 THEN Ok(WithTree(st, ns, Del(Tree(st, ns), {p})))
       ELSE LET drop(t) == Del(t, {q \in DOMAIN t : t[q].ino = i})
                \* names that were links of this (empty) content before the last reopen: an image does
@@ -268,6 +268,42 @@ ModifyInPlaceF(st, p, b) ==
          THEN [out |-> "unsupported", why |-> "unknown_content", acc |-> st, alt |-> st]
     ELSE IF Sectors(BlobLen[st.blob[st.iso[p].ino]]) # Sectors(BlobLen[b]) THEN Refuse("sector_count_changes")
     ELSE Ok([st EXCEPT !.blob[st.iso[p].ino] = b])
+
+\* add_eltorito(boot file by ISO9660 path, catalog name c): the first call creates the catalog, reachable
+\* as a file named c in the ISO9660 tree and in the Joliet/UDF trees the image carries; later calls
+\* add a section entry to the existing catalog.
+MaxSections == 31
+AddEltoritoF(st, bp, c) ==
+    IF st.phase # "live" THEN Refuse("bad_state")
+    ELSE IF bp = Root \/ bp \notin DOMAIN st.iso THEN Refuse("iso_missing")
+    ELSE IF st.iso[bp].k = "symlink" THEN [out |-> "unsupported", why |-> "symlink_as_boot_file", acc |-> st, alt |-> st]
+    ELSE IF st.iso[bp].k # "file" \/ st.iso[bp].ino = 0 THEN Refuse("iso_wrong_kind")
+    ELSE IF st.elt.on /\ st.iso[bp].ino = st.elt.catino THEN Refuse("iso_wrong_kind")   \* the catalog itself
+    \* an empty boot file owns no sector a catalog entry could point at: outside the model
+    ELSE IF st.blob[st.iso[bp].ino] \in DOMAIN BlobLen /\ BlobLen[st.blob[st.iso[bp].ino]] = 0
+         THEN [out |-> "unsupported", why |-> "empty_boot_file", acc |-> st, alt |-> st]
+    ELSE IF st.elt.on
+         THEN IF Len(st.elt.entries) > MaxSections THEN Refuse("too_many_sections")
+              ELSE Ok([st EXCEPT !.elt.entries = Append(@, st.iso[bp].ino)])
+    ELSE
+      LET why == FirstWhy(<<AddWhy(st, "iso", c, "file"),
+                            IF HasNs(st, "jol") THEN AddWhy(st, "jol", c, "file") ELSE "",
+                            IF HasNs(st, "udf") THEN AddWhy(st, "udf", c, "file") ELSE "">>)
+          i   == FreshIno(st)
+          e   == Entry("file", i, FALSE, "")
+          s1  == [st EXCEPT !.iso = Put(st.iso, c, e)]
+          s2  == IF HasNs(st, "jol") THEN [s1 EXCEPT !.jol = Put(s1.jol, c, e)] ELSE s1
+          s3  == IF HasNs(st, "udf") THEN [s2 EXCEPT !.udf = Put(s2.udf, c, e)] ELSE s2
+      IN Decide(why, [s3 EXCEPT !.blob = [j \in DOMAIN st.blob \cup {i} |-> IF j = i THEN "cat" ELSE st.blob[j]],
+                                !.grp  = [j \in DOMAIN st.blob \cup {i} |-> IF j = i THEN i ELSE st.grp[j]],
+                                !.elt  = [on |-> TRUE, catino |-> i, entries |-> <<st.iso[bp].ino>>]])
+
+\* rm_eltorito removes the catalog with all its names and the references to the boot files
+RmEltoritoF(st) ==
+    IF st.phase # "live" THEN Refuse("bad_state")
+    ELSE IF ~st.elt.on THEN Refuse("no_eltorito")
+    ELSE LET drop(t) == Del(t, {q \in DOMAIN t : t[q].ino = st.elt.catino})
+         IN Ok(GC([st EXCEPT !.iso = drop(st.iso), !.jol = drop(st.jol), !.udf = drop(st.udf), !.elt = NoElt]))
 
 DuplicatePvdF(st) ==
     IF st.phase # "live" THEN Refuse("bad_state") ELSE Ok([st EXCEPT !.npvd = @ + 1])
@@ -327,6 +363,8 @@ RawStep(st, a) ==
       [] a.a = "ClearHidden"  -> HiddenF(st, a.ns, a.p, FALSE)
       [] a.a = "AddSymlink"   -> AddSymlinkF(st, a.iso, a.udf, a.t)
       [] a.a = "DuplicatePvd" -> DuplicatePvdF(st)
+      [] a.a = "AddEltorito"  -> AddEltoritoF(st, a.boot, a.cat)
+      [] a.a = "RmEltorito"   -> RmEltoritoF(st)
       [] a.a = "ModifyInPlace" -> ModifyInPlaceF(st, a.p, a.blob)
       [] a.a \in ScheduleActs -> ScheduleF(st, a)
       [] a.a = "Reopen"       -> ReopenF(st)
